@@ -1,0 +1,216 @@
+//go:build verif
+
+package store
+
+import (
+	"context"
+	"sort"
+	"sync/atomic"
+	"time"
+
+	"github.com/containerd/containerd/v2/pkg/reference"
+	"github.com/containerd/stargz-snapshotter/fs/config"
+	"github.com/containerd/stargz-snapshotter/fs/layer"
+	layermetrics "github.com/containerd/stargz-snapshotter/fs/metrics/layer"
+	"github.com/containerd/stargz-snapshotter/fs/remote"
+	"github.com/containerd/stargz-snapshotter/fs/source"
+	"github.com/containerd/stargz-snapshotter/metadata"
+	"github.com/containerd/stargz-snapshotter/task"
+	"github.com/containerd/stargz-snapshotter/util/namedmutex"
+	fusefs "github.com/hanwen/go-fuse/v2/fs"
+	digest "github.com/opencontainers/go-digest"
+	ocispec "github.com/opencontainers/image-spec/specs-go/v1"
+)
+
+// Verification hook (build tag "verif" only): constructor and thin wrappers that expose the
+// unexported LayerManager / refPool logic to the correspondence harness under /verif.
+// No behaviour change: every wrapper calls the real method.
+
+// VerifNewLayerManager builds a LayerManager exactly as NewLayerManager does, except that
+//   - manifests/configs are fetched through manifestHosts and blobs through blobHosts
+//     (NewLayerManager uses one RegistryHosts for both),
+//   - the layer resolver gets the given remote handlers (NewLayerManager passes nil),
+//   - no additional decompressors and no prometheus registration.
+func VerifNewLayerManager(ctx context.Context, root string, manifestHosts, blobHosts source.RegistryHosts,
+	handlers map[string]remote.Handler, metadataStore metadata.Store, cfg config.Config) (*LayerManager, error) {
+	refPool, err := newRefPool(ctx, root, manifestHosts)
+	if err != nil {
+		return nil, err
+	}
+	maxConcurrency := cfg.MaxConcurrency
+	if maxConcurrency == 0 {
+		maxConcurrency = defaultMaxConcurrency
+	}
+	tm := task.NewBackgroundTaskManager(maxConcurrency, 5*time.Second)
+	r, err := layer.NewResolver(root, tm, cfg, handlers, metadataStore, layer.OverlayOpaqueAll, nil)
+	if err != nil {
+		return nil, err
+	}
+	return &LayerManager{
+		refPool:               refPool,
+		hosts:                 blobHosts,
+		resolver:              r,
+		prefetchSize:          cfg.PrefetchSize,
+		noprefetch:            cfg.NoPrefetch,
+		noBackgroundFetch:     cfg.NoBackgroundFetch,
+		backgroundTaskManager: tm,
+		metricsController:     layermetrics.NewLayerMetrics(nil),
+		resolveLock:           new(namedmutex.NamedMutex),
+		layer:                 make(map[string]map[string]layer.Layer),
+		refcounter:            make(map[string]map[string]int),
+	}, nil
+}
+
+func (r *LayerManager) VerifGetLayer(ctx context.Context, refspec reference.Spec, tocDigest digest.Digest) (layer.Layer, error) {
+	return r.getLayer(ctx, refspec, tocDigest)
+}
+
+func (r *LayerManager) VerifGetLayerInfo(ctx context.Context, refspec reference.Spec, tocDigest digest.Digest) (Layer, error) {
+	return r.getLayerInfo(ctx, refspec, tocDigest)
+}
+
+func (r *LayerManager) VerifUse(refspec reference.Spec, tocDigest digest.Digest) int {
+	return r.use(refspec, tocDigest)
+}
+
+func (r *LayerManager) VerifRelease(ctx context.Context, refspec reference.Spec, tocDigest digest.Digest) (int, error) {
+	return r.release(ctx, refspec, tocDigest)
+}
+
+// VerifLoadRef runs refPool.loadRef (first sub-step of getLayer after a cache miss).
+func (r *LayerManager) VerifLoadRef(ctx context.Context, refspec reference.Spec) (ocispec.Manifest, error) {
+	m, _, err := r.refPool.loadRef(ctx, refspec)
+	return m, err
+}
+
+// VerifResolveLayer runs resolveLayer for one layer of the manifest (body of one goroutine of getLayer).
+func (r *LayerManager) VerifResolveLayer(ctx context.Context, refspec reference.Spec, target ocispec.Descriptor) error {
+	verifResolveSpawned()
+	return r.resolveLayer(ctx, refspec, target)
+}
+
+// Quiescence: getLayer returns as soon as one of its resolveLayer goroutines found the layer; the others keep
+// running (or have not started yet). The two counters tell the harness when all of them have finished.
+var verifSpawned, verifFinished atomic.Int64
+
+func verifResolveSpawned()  { verifSpawned.Add(1) }
+func verifResolveFinished() { verifFinished.Add(1) }
+
+// VerifResolvePending is the number of resolveLayer calls announced by getLayer that have not returned yet.
+func VerifResolvePending() int64 { return verifSpawned.Load() - verifFinished.Load() }
+
+// VerifCached runs getCachedLayer.
+func (r *LayerManager) VerifCached(refspec reference.Spec, tocDigest digest.Digest) bool {
+	return r.getCachedLayer(refspec, tocDigest) != nil
+}
+
+// VerifManifestCached reports whether manifest and config of refspec are readable from the pool directory.
+func (r *LayerManager) VerifManifestCached(refspec reference.Spec) bool {
+	_, _, err := r.refPool.readManifestAndConfig(refspec)
+	return err == nil
+}
+
+// VerifLayerEntry is one cached layer: key (ref, TOC digest string), the layer's own digests.
+type VerifLayerEntry struct {
+	Ref, Key    string
+	LayerDigest string
+	TOCDigest   string
+}
+
+// VerifCountEntry is one use-count entry.
+type VerifCountEntry struct {
+	Ref, Key string
+	Count    int
+}
+
+// VerifMemoEntry is one memoised resolution result.
+type VerifMemoEntry struct {
+	Ref, LayerDigest string
+	OK               bool
+}
+
+// VerifStateDump is a canonical (sorted) copy of the bookkeeping maps.
+type VerifStateDump struct {
+	Layers         []VerifLayerEntry
+	EmptyLayerRefs []string // refs whose inner layer map exists but is empty
+	Counts         []VerifCountEntry
+	EmptyCountRefs []string // refs whose inner count map exists but is empty
+	Memo           []VerifMemoEntry
+	EmptyMemoRefs  []string
+	PoolCounts     []VerifCountEntry // refPool.refcounter (Key unused)
+}
+
+// VerifState dumps the maps under the same locks the methods take.
+func (r *LayerManager) VerifState() VerifStateDump {
+	var d VerifStateDump
+	r.mu.Lock()
+	for ref, m := range r.layer {
+		if len(m) == 0 {
+			d.EmptyLayerRefs = append(d.EmptyLayerRefs, ref)
+		}
+		for k, l := range m {
+			info := l.Info()
+			d.Layers = append(d.Layers, VerifLayerEntry{Ref: ref, Key: k, LayerDigest: info.Digest.String(), TOCDigest: info.TOCDigest.String()})
+		}
+	}
+	for ref, m := range r.refcounter {
+		if len(m) == 0 {
+			d.EmptyCountRefs = append(d.EmptyCountRefs, ref)
+		}
+		for k, c := range m {
+			d.Counts = append(d.Counts, VerifCountEntry{Ref: ref, Key: k, Count: c})
+		}
+	}
+	for ref, m := range r.resolveLayerCache {
+		if len(m) == 0 {
+			d.EmptyMemoRefs = append(d.EmptyMemoRefs, ref)
+		}
+		for k, e := range m {
+			d.Memo = append(d.Memo, VerifMemoEntry{Ref: ref, LayerDigest: k, OK: e == nil})
+		}
+	}
+	r.mu.Unlock()
+	r.refPool.mu.Lock()
+	for ref, rel := range r.refPool.refcounter {
+		d.PoolCounts = append(d.PoolCounts, VerifCountEntry{Ref: ref, Count: rel.count})
+	}
+	r.refPool.mu.Unlock()
+	sort.Slice(d.Layers, func(i, j int) bool {
+		if d.Layers[i].Ref != d.Layers[j].Ref {
+			return d.Layers[i].Ref < d.Layers[j].Ref
+		}
+		return d.Layers[i].Key < d.Layers[j].Key
+	})
+	lessC := func(s []VerifCountEntry) func(i, j int) bool {
+		return func(i, j int) bool {
+			if s[i].Ref != s[j].Ref {
+				return s[i].Ref < s[j].Ref
+			}
+			return s[i].Key < s[j].Key
+		}
+	}
+	sort.Slice(d.Counts, lessC(d.Counts))
+	sort.Slice(d.PoolCounts, lessC(d.PoolCounts))
+	sort.Slice(d.Memo, func(i, j int) bool {
+		if d.Memo[i].Ref != d.Memo[j].Ref {
+			return d.Memo[i].Ref < d.Memo[j].Ref
+		}
+		return d.Memo[i].LayerDigest < d.Memo[j].LayerDigest
+	})
+	sort.Strings(d.EmptyLayerRefs)
+	sort.Strings(d.EmptyCountRefs)
+	sort.Strings(d.EmptyMemoRefs)
+	return d
+}
+
+// VerifRootNode returns the root node of the store filesystem (what Mount hands to go-fuse),
+// so that the rootnode/refnode/layernode handlers can be driven through a NodeFS bridge without a mount.
+func VerifRootNode(layerManager *LayerManager) fusefs.InodeEmbedder {
+	return &rootnode{
+		fs: &fs{
+			layerManager: layerManager,
+			nodeMap:      new(idMap),
+			layerMap:     new(idMap),
+		},
+	}
+}
